@@ -203,6 +203,63 @@ theorem inplace_external_writes (h : Heap) (d x : Var) (rs : List Var) (s : Sid)
     (execProg h [HOp.view d x, HOp.inplace d rs]).ver s = h.ver s + 1 := by
   simp [execProg, HOp.exec, hx]
 
+/-! ## Part 1b — which results may alias market data -/
+
+/-- soundness of `ownedAfter`: after the program, every variable it lists is bound to a storage
+allocated at or after the watermark -/
+theorem ownedAfter_sound (p : List HOp) : ∀ (h : Heap) (owned : List Var) (n0 : Nat), n0 ≤ h.next →
+    OwnedOk n0 h owned → OwnedOk n0 (execProg h p) (ownedAfter owned p) := by
+  induction p with
+  | nil => intro h owned n0 _ hown; exact hown
+  | cons op rest ih =>
+    intro h owned n0 hn hown
+    cases op with
+    | view dst src =>
+      exact ih ((HOp.view dst src).exec h) _ n0 hn (ownedOk_view dst src hown)
+    | fresh dst rs =>
+      have hn' : n0 ≤ ((HOp.fresh dst rs).exec h).next := by
+        show n0 ≤ h.next + 1
+        omega
+      exact ih ((HOp.fresh dst rs).exec h) _ n0 hn' (ownedOk_fresh dst rs hn hown)
+    | inplace dst rs =>
+      have henv : ((HOp.inplace dst rs).exec h).env = h.env := by
+        simp only [HOp.exec]; cases h.env dst <;> rfl
+      have hnext : ((HOp.inplace dst rs).exec h).next = h.next := by
+        simp only [HOp.exec]; cases h.env dst <;> rfl
+      have hown' : OwnedOk n0 ((HOp.inplace dst rs).exec h) owned := by
+        intro v hv; rw [henv]; exact hown v hv
+      exact ih ((HOp.inplace dst rs).exec h) owned n0 (by rw [hnext]; exact hn) hown'
+
+/-- **A result the analysis calls fresh is a storage allocated by the call itself**: it aliases no
+tensor that existed before (no buffer of any instrument, no caller tensor), so nothing the caller
+does to it afterwards — in-place activation, `output[..., -1, :] = …` — can reach market data. -/
+theorem resultFresh_sound {p : List HOp} {v : Var} (hf : resultFresh p v = true) (h : Heap) :
+    ∃ s, (execProg h p).env v = some s ∧ h.next ≤ s := by
+  have hv : v ∈ ownedAfter [] p := by simpa [resultFresh] using hf
+  exact ownedAfter_sound p h [] h.next (Nat.le_refl _) (fun _ hx => by simp at hx) v hv
+
+/-- which modelled results are fresh: everything except the plain buffer-view features -/
+theorem public_results_fresh :
+    publicResults.map (fun q => (q.1, resultFresh q.2.1 q.2.2)) =
+      [("feature_view", false), ("log_spot", true), ("spot_at", true), ("moneyness", true),
+       ("barrier", true), ("get_input", true), ("hedge_batched", true),
+       ("hedge_batched_identity", true), ("hedge_batched_inplace_model", true), ("hedge_step", true),
+       ("payoff", true), ("pl", true), ("loss", true), ("clamp", true)] := by decide
+
+/-- the input handed to the user's model (`FeatureList.get`) is a fresh storage: this is why a model
+that returns its input or writes it in place cannot damage the simulated series … -/
+theorem get_input_fresh (h : Heap) : ∃ s, (execProg h progGetInput).env 12 = some s ∧ h.next ≤ s :=
+  resultFresh_sound (by decide) h
+
+/-- … and it matters: if the concatenation were skipped for a single feature, the identity model
+followed by `compute_hedge`'s in-place last-step assignment is rejected by the analysis and does
+overwrite the spot buffer on the one-storage heap -/
+theorem shortcut_identity_unsafe :
+    safe progHedgeShortcutIdentity = false ∧ safe progHedgeBatchedIdentity = true ∧
+    (execProg spotHeap progHedgeShortcutIdentity).ver 0 = 1 ∧
+    (execProg spotHeap progHedgeBatchedIdentity).ver 0 = 0 := by
+  refine ⟨by decide, by decide, rfl, rfl⟩
+
 /-! ## Part 2 — history independence of the hedger -/
 
 /-- **The explicit-state `compute_hedge` returns exactly the stateless one**: the buffer left by
